@@ -277,8 +277,8 @@ def rule_gate_shape(run, F, cfg):
                 conds[e] = v
             m_ok = any(re.search(r"NetworkMatchable>::matches\(", e) and v == 1 for e, v in conds.items())
             # gate: tag.map(|t| active_tags.contains(t)).unwrap_or(true)
-            g = [(e, v) for e, v in conds.items()
-                 if re.search(r"unwrap_or\(.*Option::map\(.*\.tag", e)]
+            from analysis.idioms import option_gate
+            g = [(e, v) for e, v in conds.items() if option_gate(e) and ".tag" in option_gate(e)[0]]
             g_ok = any(v == 1 and "arg:active_tags" in e for e, v in g)
             if not g and not g_ok:
                 # alternative spelling: explicit match on filter.tag -- an untagged rule (None arm) passes by
@@ -291,12 +291,11 @@ def rule_gate_shape(run, F, cfg):
                                for e, v in conds.items())
             # default for untagged rules is `true`; the closure is active_tags.contains(tag), not negated
             for e, v in g:
-                mm = re.search(r"closure\[([^\]]+)\]\(.*\), (\w+)\)$", e)
-                if mm:
-                    c = F.fns.get(mm.group(1))
-                    c_ok = c is not None and bool(re.match(r"^std::collections::HashSet::contains\((up:|\$)?active_tags, arg:t\)$",
-                                                           re.sub(r"up:active_tags", "up:active_tags", c.expr_local(0))))
-                    g_ok = g_ok and mm.group(2) == "true" and c_ok
+                subj, default, cname = option_gate(e)
+                c = F.fns.get(cname)
+                c_ok = c is not None and bool(re.match(r"^std::collections::HashSet::contains\((up:|\$)?active_tags, arg:\w+\)$",
+                                                       c.expr_local(0)))
+                g_ok = g_ok and default == "true" and c_ok
             run.ob("C07.2.gate-shape", f"{name.split('::')[-1]}:emit#{n}", m_ok and g_ok,
                    f"{name}: path that emits a filter must pass matches()==true [{m_ok}] and the "
                    f"tag gate over (filter.tag, active_tags)==true [{g_ok}]",
@@ -401,19 +400,36 @@ def rule_set_algebra(run, F, cfg):
     run.ob("C07.3.set-algebra", "tags_with_set:rebuild", rebuilt,
            "tags_with_set rebuilds self.filters_tagged = NetworkFilterList::new(<filtered "
            "self.tagged_filters_all>, ..)", site=f.loc(0), config=cfg)
-    # the filter closure tests contains(tag) on the new set
+    # the filter closure keeps a rule exactly when it has a tag and the NEW set contains that tag: decided as a table over
+    # the closure's return paths (whatever the spelling: is_some() && contains(unwrap()), matches!(.., Some(t) if ..),
+    # is_some_and(..), match)
+    from analysis.pathinterp import enumerate_paths as _ep, path_value as _pv
     ok = False
     for c in F.closures_of(B + "tags_with_set"):
-        for b, t in c.calls(r"HashSet::contains$"):
-            e = c.expr_call(t)
-            if ".tag" in e and re.search(r"up:self(\.|__)tags_enabled", e):
-                # keep iff tagged AND enabled: the closure's value is false or that contains(), and the
-                # contains() is evaluated only for a rule that has a tag
-                ret = c.expr_local(0)
-                guard = dominating_conditions(c, b)
-                ok = bool(re.match(r"^φ\{false \| std::collections::HashSet::contains\(", ret)) and \
-                    any(re.search(r"Option::is_some\(arg:\w+\.tag\)$", k) and v == 1 for k, v in guard.items()) and \
-                    not any(st["k"] == "assign" and st["rv"]["k"] == "unop" for _b, _i, st in c.statements())
+        if not c.calls(r"HashSet::contains$"):
+            continue
+        rows_ok, n_true = True, 0
+        for p in _ep(c):
+            if p.end != "return":
+                continue
+            cd = dict(p.conds)
+            some = [v for e, v in cd.items() if re.search(r"^(std::option::Option::is_some\(arg:\w+\.tag\)|discr\((std::option::Option::as_ref\()?arg:\w+\.tag\)+)$", e)]
+            cont = [v for e, v in cd.items() if re.search(r"^std::collections::HashSet::contains\(up:self(\.|__)tags_enabled, .*arg:\w+\.tag", e)]
+            val = _pv(c, p, 0) or ""
+            is_cont = bool(re.search(r"^std::collections::HashSet::contains\(up:self(\.|__)tags_enabled, ", val)) and \
+                all(".tag" in c.expr_call(t) for _b, t in c.calls(r"HashSet::contains$"))
+            tagged = bool(some) and all(v == 1 for v in some)
+            if val == "true":
+                n_true += 1
+                rows_ok = rows_ok and tagged and bool(cont) and all(v == 1 for v in cont)
+            elif val == "false":
+                rows_ok = rows_ok and ((bool(some) and any(v != 1 for v in some)) or (bool(cont) and any(v == 0 for v in cont)))
+            elif is_cont:
+                n_true += 1
+                rows_ok = rows_ok and tagged
+            else:
+                rows_ok = False
+        ok = rows_ok and n_true >= 1
     run.ob("C07.3.set-algebra", "tags_with_set:filter", ok,
            "the rebuild keeps exactly the rules whose tag is in the new set "
            "(closure: tags_enabled.contains(filter.tag))", config=cfg)
